@@ -11,7 +11,7 @@ from ..ref import pktdissect as P
 
 def u(bits):
   m = (1 << bits) - 1
-  edge = sorted({0, 1, m, m - 1, 1 << (bits - 1), (1 << (bits - 1)) - 1} & set(range(m + 1)))
+  edge = sorted(v for v in {0, 1, m, m - 1, 1 << (bits - 1), (1 << (bits - 1)) - 1} if 0 <= v <= m)
   return st.one_of(st.sampled_from(edge), st.integers(0, m))
 
 
